@@ -160,24 +160,31 @@ class TupV(ListV):
         return "Tuple%r" % (self.items,)
 
 
+class SetV(ListV):
+    def __repr__(self):
+        return "Set%r" % (self.items,)
+
+
 class DictV:
     def __init__(self, d=None):
         self.d = dict(d or {})
 
 
 class Obj:
-    def __init__(self, cls, fields=None):
+    def __init__(self, cls, fields=None, closed=False, label=None):
         self.cls, self.fields = cls, dict(fields or {})
+        self.closed = closed  # all instance attributes are listed: reading another one raises AttributeError
+        self.label = label
 
     def __repr__(self):
-        return "Obj(%s)" % (self.cls.name if self.cls is not None else "?")
+        return self.label or "Obj(%s)" % (self.cls.name if self.cls is not None else "?")
 
 
 class Ctor:
     """result of constructing / calling something the evaluator does not look into: name + bound arguments"""
 
-    def __init__(self, name, args):
-        self.name, self.args = name, args
+    def __init__(self, name, args, kind="object"):
+        self.name, self.args, self.kind = name, args, kind  # kind 'object': a constructed object; 'call': result of an uninterpreted call
 
     def __repr__(self):
         return "%s(%s)" % (self.name, ", ".join("%s=%r" % kv for kv in self.args.items()))
@@ -216,8 +223,12 @@ def same(a, b):
         return a is b
     if isinstance(a, Term) or isinstance(b, Term):
         return term_key(a) == term_key(b)
+    if isinstance(a, SetV) and isinstance(b, SetV):
+        return len(a.items) == len(b.items) and all(any(same(x, y) for y in b.items) for x in a.items)
     if isinstance(a, ListV) and isinstance(b, ListV):
         return type(a) is type(b) and len(a.items) == len(b.items) and all(same(x, y) for x, y in zip(a.items, b.items))
+    if isinstance(a, DictV) and isinstance(b, DictV):
+        return set(a.d) == set(b.d) and all(same(a.d[k], b.d[k]) for k in a.d)
     if isinstance(a, EnumMember) and isinstance(b, EnumMember):
         return a.cls is b.cls and a.name == b.name
     if isinstance(a, NoneT) or isinstance(b, NoneT):
@@ -622,9 +633,9 @@ class Undecided(AnalysisError):
 
 
 class _Raise(Exception):
-    def __init__(self, node, what):
+    def __init__(self, node, what, exc=None):
         Exception.__init__(self, what)
-        self.node, self.what = node, what
+        self.node, self.what, self.exc = node, what, exc
 
 
 class FuncV:
@@ -647,7 +658,7 @@ class PatternV:
         self.pattern = pattern
 
 
-BUILTINS = {"round", "abs", "super", "map", "filter", "str", "int", "len", "isinstance", "bool", "list", "tuple", "enumerate", "zip", "all", "any", "float", "repr", "type", "dict", "set", "range", "sorted", "min", "max"}
+BUILTINS = {"hasattr", "getattr", "callable", "round", "abs", "super", "map", "filter", "str", "int", "len", "isinstance", "bool", "list", "tuple", "enumerate", "zip", "all", "any", "float", "repr", "type", "dict", "set", "range", "sorted", "min", "max"}
 
 
 def decorators(fn):
@@ -661,7 +672,9 @@ class Ev:
         self.repo = repo
         self.opaque_calls = set(opaque_calls)  # "Class.method" evaluated to Ctor(name, args) without looking inside
         self.stubs = {}  # "Class.method" -> callable(bound arguments) giving the abstract result
+        self.syms = {}  # name -> Sym, for atoms used as dictionary keys
         self.oracle = None  # callable(kind, a, b) -> True / False / None: decides tests on atoms for the shape case
+        self.pure_modules = set()  # roots of outside modules whose functions are uninterpreted pure functions
         self.pure_calls = set()  # dotted names of outside functions treated as uninterpreted pure functions (Term)
         self.trace = []  # (what, node) notes: pattern methods used, skipped asserts
         self.depth = 0
@@ -685,10 +698,16 @@ class Ev:
             return bool(v.d)
         if isinstance(v, Sym) and v.kind == "int" and v.positive:
             return True
-        if self.oracle is not None and (isinstance(v, (Sym, Term))):
+        if self.oracle is not None and (isinstance(v, (Sym, Term, Obj))):
             r = self.oracle("truth", v, None)
             if r is not None:
                 return r
+        if isinstance(v, Ctor) and v.kind == "call":
+            if self.oracle is not None:
+                r = self.oracle("truth", v, None)
+                if r is not None:
+                    return r
+            raise Undecided("truth of the uninterpreted result %r%s" % (v, " at line %s" % node.lineno if node is not None else ""))
         if isinstance(v, (Obj, MatchV, EnumMember, Ctor, ClassRef, FuncV, PatternV)):
             return True
         raise Undecided("truth of %r is not decidable%s" % (v, " at line %s" % node.lineno if node is not None else ""))
@@ -711,7 +730,7 @@ class Ev:
         return False
 
     def compare(self, op, a, b, node):
-        if self.oracle is not None and not isinstance(op, (ast.Is, ast.IsNot, ast.In, ast.NotIn)) and (isinstance(a, (Sym, Term)) or isinstance(b, (Sym, Term))):
+        if self.oracle is not None and not isinstance(op, (ast.Is, ast.IsNot, ast.In, ast.NotIn)) and (isinstance(a, (Sym, Term)) or isinstance(b, (Sym, Term)) or (isinstance(a, Ctor) and a.kind == "call") or (isinstance(b, Ctor) and b.kind == "call")):
             r = self.oracle(type(op).__name__, a, b)
             if r is not None:
                 return r
@@ -770,7 +789,19 @@ class Ev:
             return v
         if isinstance(v, EnumMember):
             return (v.cls.name, v.name)
+        if isinstance(v, Sym):
+            self.syms[v.name] = v
+            return ("sym", v.name)
+        if isinstance(v, TupV):
+            return tuple(self.key_of(x) for x in v.items)
         raise Undecided("dictionary key %r" % (v,))
+
+    def unkey(self, k):
+        if isinstance(k, str):
+            return Str.lit(k)
+        if isinstance(k, tuple) and len(k) == 2 and k[0] == "sym":
+            return self.syms.get(k[1], Frag("key %r" % (k,)))
+        return k
 
     def to_str(self, v):
         if isinstance(v, Str):
@@ -869,7 +900,9 @@ class Ev:
                     return self.ev(c.class_assigns[attr], {"__mod__": c.mod}, c.mod)
             if attr.startswith("_") and attr[1:] in v.fields:
                 return v.fields[attr[1:]]
-            raise AnalysisError("attribute %s of %r is not modelled (line %d)" % (attr, v, node.lineno))
+            if v.closed:
+                raise _Raise(node, "%r has no attribute %s" % (v, attr), "AttributeError")
+            raise AnalysisError("attribute %s of %r is not modelled (line %s)" % (attr, v, getattr(node, "lineno", "?")))
         if isinstance(v, ClassRef):
             c = v.cls
             if c.is_enum and attr in c.enum_members():
@@ -904,9 +937,12 @@ class Ev:
         fn = f.fn
         qn = "%s.%s" % (f.cls.name, fn.name) if f.cls is not None else fn.name
         if qn in self.stubs:
-            return self.stubs[qn](self.bind_args(fn, args, kwargs, receiver=f.self_val, drop_first=f.self_val is not None, mod=f.mod))
+            return self.stubs[qn](self.bind_args(fn, args, kwargs, receiver=f.self_val, drop_first=False, mod=f.mod))
         if qn in self.opaque_calls:
-            return Ctor(qn, self.bind_args(fn, args, kwargs, receiver=f.self_val, drop_first=f.self_val is not None, mod=f.mod))
+            bound = self.bind_args(fn, args, kwargs, receiver=f.self_val, drop_first=False, mod=f.mod)
+            r = Ctor(qn, bound, kind="call")
+            self.trace.append(("call", node, r))
+            return r
         self.depth += 1
         if self.depth > 12:
             raise AnalysisError("call depth exceeded in %s" % qn)
@@ -1045,7 +1081,11 @@ class Ev:
         if isinstance(st, ast.Return):
             return ("ret", self.ev(st.value, env, mod) if st.value is not None else NONE)
         if isinstance(st, ast.Raise):
-            raise _Raise(st, norm(st.exc)[:80] if st.exc is not None else "raise")
+            exc = None
+            if st.exc is not None:
+                f = st.exc.func if isinstance(st.exc, ast.Call) else st.exc
+                exc = norm(f).split(".")[-1]
+            raise _Raise(st, norm(st.exc)[:80] if st.exc is not None else "raise", exc)
         if isinstance(st, ast.Assert):
             try:
                 ok = self.truth(self.ev(st.test, env, mod), st)
@@ -1053,7 +1093,7 @@ class Ev:
                 self.trace.append(("assert-skipped", st, str(e)))
                 return None
             if not ok:
-                raise _Raise(st, "assert %s" % norm(st.test)[:80])
+                raise _Raise(st, "assert %s" % norm(st.test)[:80], "AssertionError")
             return None
         if isinstance(st, ast.Pass):
             return None
@@ -1065,7 +1105,57 @@ class Ev:
             env[st.name] = FuncV(st, env=env, mod=mod, cls=None)
             return None
         if isinstance(st, ast.Try):
-            return self.block(st.body + st.orelse + st.finalbody, env, mod)
+            try:
+                r = self.block(st.body, env, mod)
+                if r is None:
+                    r = self.block(st.orelse, env, mod)
+            except _Raise as x:
+                r = "unhandled"
+                for h in st.handlers:
+                    names = []
+                    if h.type is not None:
+                        names = [norm(t).split(".")[-1] for t in (h.type.elts if isinstance(h.type, ast.Tuple) else [h.type])]
+                    if h.type is None or "Exception" in names or "BaseException" in names or (x.exc is not None and x.exc in names):
+                        if x.exc is None and h.type is not None and "Exception" not in names and "BaseException" not in names:
+                            continue
+                        if h.name:
+                            env[h.name] = Ctor(x.exc or "Exception", {"what": Str.lit(x.what)}, kind="object")
+                        r = self.block(h.body, env, mod)
+                        break
+                if r == "unhandled":
+                    if x.exc is None and st.handlers:
+                        raise AnalysisError("exception of unknown type (%s) meets handlers at line %d" % (x.what, st.lineno))
+                    self.block(st.finalbody, env, mod)
+                    raise
+            fin = self.block(st.finalbody, env, mod)
+            return fin if fin is not None else r
+        if isinstance(st, ast.Delete):
+            for t in st.targets:
+                if isinstance(t, ast.Attribute):
+                    o = self.ev(t.value, env, mod)
+                    if isinstance(o, Obj):
+                        if t.attr not in o.fields:
+                            raise _Raise(st, "del of missing attribute %s" % t.attr, "AttributeError")
+                        del o.fields[t.attr]
+                        self.trace.append(("del", t, (o, t.attr)))
+                        continue
+                if isinstance(t, ast.Subscript):
+                    o = self.ev(t.value, env, mod)
+                    k = self.ev(t.slice, env, mod)
+                    if isinstance(o, DictV):
+                        kk = self.key_of(k)
+                        if kk not in o.d:
+                            raise _Raise(st, "KeyError %r" % (kk,), "KeyError")
+                        del o.d[kk]
+                        continue
+                    if isinstance(o, ListV) and isinstance(k, int):
+                        del o.items[k]
+                        continue
+                if isinstance(t, ast.Name):
+                    env.pop(t.id, None)
+                    continue
+                raise AnalysisError("del %s at line %d is not modelled" % (norm(t), st.lineno))
+            return None
         if isinstance(st, (ast.Import, ast.ImportFrom)):
             return None
         raise AnalysisError("statement %s at line %d is not modelled" % (type(st).__name__, st.lineno))
@@ -1076,7 +1166,7 @@ class Ev:
         if isinstance(v, ClassRef) and v.cls.is_enum:
             return [EnumMember(v.cls, k, self.ev(x, {"__mod__": v.cls.mod}, v.cls.mod)) for k, x in v.cls.enum_members().items()]
         if isinstance(v, DictV):
-            return [Str.lit(k) if isinstance(k, str) else k for k in v.d]
+            return [self.unkey(k) for k in v.d]
         if isinstance(v, Frag):
             return [v]
         raise AnalysisError("iteration over %r at line %d is not modelled" % (v, node.lineno))
@@ -1190,6 +1280,23 @@ class Ev:
                 else:
                     items.append(self.ev(x, env, mod))
             return (ListV if isinstance(e, ast.List) else TupV)(items)
+        if isinstance(e, ast.Set):
+            out = SetV([])
+            for x in e.elts:
+                v = self.ev(x, env, mod)
+                if not any(same(v, y) for y in out.items):
+                    out.items.append(v)
+            return out
+        if isinstance(e, ast.SetComp):
+            out = SetV([])
+
+            def add(e2):
+                v = self.ev(e.elt, e2, mod)
+                if not any(same(v, y) for y in out.items):
+                    out.items.append(v)
+
+            self.comp(e.generators, env, mod, add)
+            return out
         if isinstance(e, ast.Dict):
             return DictV({self.key_of(self.ev(k, env, mod)): self.ev(v, env, mod) for k, v in zip(e.keys, e.values)})
         if isinstance(e, ast.IfExp):
@@ -1362,6 +1469,32 @@ class Ev:
             if isinstance(args[0], Obj) and args[0].cls is not None:
                 return ClassRef(args[0].cls)
             raise AnalysisError("type(%r) at line %d" % (args[0], e.lineno))
+        if name == "hasattr" and len(args) == 2 and isinstance(args[1], Str) and args[1].is_lit():
+            o, a = args[0], args[1].text()
+            if isinstance(o, Obj):
+                if a in o.fields:
+                    return True
+                if o.cls is not None and (self.repo.find_prop(o.cls, a)[1] or self.repo.find_method(o.cls, a)[1] is not None or any(a in c.class_assigns for c in self.repo.mro(o.cls))):
+                    return True
+                if o.closed:
+                    return False
+            raise Undecided("hasattr(%r, %r) at line %d" % (o, a, e.lineno))
+        if name == "getattr" and len(args) in (2, 3) and isinstance(args[1], Str) and args[1].is_lit():
+            try:
+                r = self.getattr(args[0], args[1].text(), e, None)
+            except _Raise as x:
+                if len(args) == 3 and x.exc == "AttributeError":
+                    return args[2]
+                raise
+            if isinstance(r, tuple) and r and r[0] == "method":
+                raise AnalysisError("getattr of a method of %r at line %d" % (args[0], e.lineno))
+            return r
+        if name == "set":
+            out = SetV([])
+            for x in self.iterate(args[0], e) if args else []:
+                if not any(same(x, y) for y in out.items):
+                    out.items.append(x)
+            return out
         if name in ("map", "filter"):
             f = args[0]
             items = [list(t) for t in zip(*[self.iterate(a, e) for a in args[1:]])]
@@ -1420,6 +1553,25 @@ class Ev:
     def modcall(self, name, args, kwargs, e):
         if name.startswith("warnings.") or name.startswith("logging.") or name.startswith("logger."):
             return NONE
+        if name in ("itertools.chain", "chain"):
+            return ListV([x for a in args for x in self.iterate(a, e)])
+        if name in ("itertools.chain.from_iterable", "chain.from_iterable"):
+            return ListV([x for a in self.iterate(args[0], e) for x in self.iterate(a, e)])
+        if name in ("copy.copy", "copy.deepcopy") and len(args) >= 1:
+            v = args[0]
+            if isinstance(v, Obj):
+                o = Obj(v.cls, dict(v.fields), v.closed, label=("copy of %r" % v))
+                o.copied_from = v
+                return o
+            if isinstance(v, ListV):
+                return type(v)(list(v.items))
+            if isinstance(v, DictV):
+                return DictV(dict(v.d))
+            return v
+        if name.split(".")[0] in self.pure_modules or name in self.pure_calls:
+            r = Ctor(name, dict({"arg%d" % i: a for i, a in enumerate(args)}, **kwargs), kind="call")
+            self.trace.append(("call", e, r))
+            return r
         if name == "re.compile":
             if args and isinstance(args[0], Str) and args[0].is_lit():
                 return PatternV(args[0].text())
@@ -1570,7 +1722,36 @@ class Ev:
                 if any(p[0] == "lit" and not p[1].isdigit() or p[0] == "sym" and not (p[1].charset & set("0123456789")) for p in recv.pieces):
                     return False
                 raise Undecided("isdigit on %s" % recv.text())
-        if isinstance(recv, ListV) and not isinstance(recv, TupV):
+        if isinstance(recv, SetV):
+            if name == "add":
+                if not any(same(args[0], y) for y in recv.items):
+                    recv.items.append(args[0])
+                return NONE
+            if name in ("discard", "remove"):
+                hit = [y for y in recv.items if same(args[0], y)]
+                if not hit and name == "remove":
+                    raise _Raise(e, "KeyError", "KeyError")
+                recv.items[:] = [y for y in recv.items if not same(args[0], y)]
+                return NONE
+            if name == "update":
+                for a in args:
+                    for x in self.iterate(a, e):
+                        if not any(same(x, y) for y in recv.items):
+                            recv.items.append(x)
+                return NONE
+            if name in ("union", "intersection", "difference"):
+                other = [x for a in args for x in self.iterate(a, e)]
+                if name == "union":
+                    out = SetV(list(recv.items))
+                    for x in other:
+                        if not any(same(x, y) for y in out.items):
+                            out.items.append(x)
+                    return out
+                keep = name == "intersection"
+                return SetV([x for x in recv.items if any(same(x, y) for y in other) == keep])
+            if name == "copy":
+                return SetV(list(recv.items))
+        if isinstance(recv, ListV) and not isinstance(recv, TupV) and not isinstance(recv, SetV):
             if name == "append":
                 recv.items.append(args[0])
                 return NONE
@@ -1592,11 +1773,34 @@ class Ev:
                 k = self.key_of(args[0])
                 return recv.d.get(k, args[1] if len(args) > 1 else NONE)
             if name == "items":
-                return ListV([TupV([Str.lit(k) if isinstance(k, str) else k, v]) for k, v in recv.d.items()])
+                return ListV([TupV([self.unkey(k), v]) for k, v in recv.d.items()])
             if name == "values":
                 return ListV(list(recv.d.values()))
             if name == "keys":
-                return ListV([Str.lit(k) if isinstance(k, str) else k for k in recv.d])
+                return ListV([self.unkey(k) for k in recv.d])
+            if name == "update":
+                for a in args:
+                    if isinstance(a, DictV):
+                        recv.d.update(a.d)
+                    else:
+                        for pair in self.iterate(a, e):
+                            if not (isinstance(pair, ListV) and len(pair.items) == 2):
+                                raise AnalysisError("dict.update with %r at line %d" % (pair, e.lineno))
+                            recv.d[self.key_of(pair.items[0])] = pair.items[1]
+                recv.d.update(kwargs)
+                return NONE
+            if name == "pop":
+                k = self.key_of(args[0])
+                if k in recv.d:
+                    return recv.d.pop(k)
+                if len(args) > 1:
+                    return args[1]
+                raise _Raise(e, "KeyError %r" % (k,), "KeyError")
+            if name == "setdefault":
+                k = self.key_of(args[0])
+                return recv.d.setdefault(k, args[1] if len(args) > 1 else NONE)
+            if name == "copy":
+                return DictV(dict(recv.d))
         if isinstance(recv, MatchV):
             if name == "group":
                 if len(args) != 1:
@@ -1640,11 +1844,11 @@ class Ev:
             try:
                 return v.items[k]
             except IndexError:
-                raise _Raise(node, "list index %d out of range" % k)
+                raise _Raise(node, "list index %d out of range" % k, "IndexError")
         if isinstance(v, DictV):
             kk = self.key_of(k)
             if kk not in v.d:
-                raise _Raise(node, "KeyError %r" % (kk,))
+                raise _Raise(node, "KeyError %r" % (kk,), "KeyError")
             return v.d[kk]
         if isinstance(v, MatchV):
             kk = self.key_of(k)
